@@ -262,6 +262,12 @@ func (s Subscription) Merge(n Subscription) Subscription {
 		s.Identifiers[n.Filter] = n.Identifier
 	}
 
+	for filter, id := range n.Identifiers { // n may itself be the result of a merge
+		if id > 0 {
+			s.Identifiers[filter] = id
+		}
+	}
+
 	if n.Qos > s.Qos {
 		s.Qos = n.Qos // [MQTT-3.3.4-2]
 	}
